@@ -1,6 +1,546 @@
 import Tickit.Model.Pen
 /-
-  Helper lemmas for C19 (pen).
+  Helper lemmas for C19 (pen): bit-field storage, the well-formedness invariant, the abstraction
+  `Pen.abs : Pen → PenDict` and the refinement lemmas `abs (op p) = specOp (abs p)`.
 -/
 namespace Tickit
+
+/-! ### Bit-field storage -/
+
+theorem two_pow_pos (w : Nat) : (0 : Int) < (2 : Int) ^ w := Int.pow_pos (by decide)
+
+theorem two_pow_pred (w : Nat) (hw : 1 ≤ w) : (2 : Int) ^ w = 2 * (2 : Int) ^ (w - 1) := by
+  obtain ⟨k, rfl⟩ : ∃ k, w = k + 1 := ⟨w - 1, by omega⟩
+  simp [Int.pow_succ, Int.mul_comm]
+
+theorem wrapUnsigned_range (w : Nat) (v : Int) : 0 ≤ wrapUnsigned w v ∧ wrapUnsigned w v < (2 : Int) ^ w := by
+  unfold wrapUnsigned
+  have h := two_pow_pos w
+  exact ⟨Int.emod_nonneg _ (by omega), Int.emod_lt_of_pos _ h⟩
+
+theorem wrapUnsigned_of_range (w : Nat) (v : Int) (h0 : 0 ≤ v) (h1 : v < (2 : Int) ^ w) : wrapUnsigned w v = v := by
+  unfold wrapUnsigned
+  exact Int.emod_eq_of_lt h0 h1
+
+theorem wrapSigned_range (w : Nat) (hw : 1 ≤ w) (v : Int) :
+    -((2 : Int) ^ (w - 1)) ≤ wrapSigned w v ∧ wrapSigned w v < (2 : Int) ^ (w - 1) := by
+  unfold wrapSigned
+  have h := two_pow_pos w
+  have h2 := two_pow_pred w hw
+  have a := Int.emod_nonneg (v + (2 : Int) ^ (w - 1)) (show (2 : Int) ^ w ≠ 0 by omega)
+  have b := Int.emod_lt_of_pos (v + (2 : Int) ^ (w - 1)) h
+  omega
+
+theorem wrapSigned_of_range (w : Nat) (hw : 1 ≤ w) (v : Int)
+    (h0 : -((2 : Int) ^ (w - 1)) ≤ v) (h1 : v < (2 : Int) ^ (w - 1)) : wrapSigned w v = v := by
+  unfold wrapSigned
+  have h2 := two_pow_pred w hw
+  rw [Int.emod_eq_of_lt (by omega) (by omega)]
+  omega
+
+/-- Storing a representable value is exact. -/
+theorem store_of_representable (w : Nat) (s : Bool) (v : Int) (hw : 1 ≤ w) (h : Representable w s v) :
+    store w s v = v := by
+  unfold store
+  unfold Representable at h
+  cases s
+  · simp at h ⊢; exact wrapUnsigned_of_range w v h.1 h.2
+  · simp at h ⊢; exact wrapSigned_of_range w hw v h.1 h.2
+
+/-- Whatever is stored, what is read back is representable. -/
+theorem store_representable (w : Nat) (s : Bool) (v : Int) (hw : 1 ≤ w) : Representable w s (store w s v) := by
+  unfold store Representable
+  cases s
+  · simp; exact wrapUnsigned_range w v
+  · simp; exact wrapSigned_range w hw v
+
+/-- A value survives a store exactly when it is representable. -/
+theorem store_eq_iff (w : Nat) (s : Bool) (v : Int) (hw : 1 ≤ w) : store w s v = v ↔ Representable w s v :=
+  ⟨fun h => h ▸ store_representable w s v hw, store_of_representable w s v hw⟩
+
+theorem store_idem (w : Nat) (s : Bool) (v : Int) (hw : 1 ≤ w) : store w s (store w s v) = store w s v :=
+  store_of_representable w s _ hw (store_representable w s v hw)
+
+/-! ### The attribute enum and the generated tables -/
+
+namespace PenAttr
+open Gen.PenLayout
+
+theorem width_pos (a : PenAttr) : 1 ≤ a.width := by cases a <;> decide
+theorem all_nodup : all.Nodup := by decide
+theorem mem_all (a : PenAttr) : a ∈ all := by cases a <;> decide
+theorem ofCode_code (a : PenAttr) : ofCode? a.code = some a := by cases a <;> decide
+
+/-- `all` is the loop `for(attr = 1; attr < TICKIT_N_PEN_ATTRS; attr++)`. -/
+theorem all_codes : all.map code = (List.range (TICKIT_N_PEN_ATTRS.toNat - 1)).map (fun (k : Nat) => (k : Int) + 1) := by decide
+
+/-- No enumerator of `TickitPenAttr` is unknown to the model. -/
+theorem enum_complete : pen_attrs.map (·.2) = all.map code := by decide
+
+/-- The hand-written `type` is the generated `tickit_penattr_type` table … -/
+theorem type_table (a : PenAttr) : penattr_type.lookup a.code = some a.type.code := by cases a <;> decide
+
+/-- … on every code the table lists (0 … `TICKIT_N_PEN_ATTRS`). -/
+theorem type_table_all : penattr_type.all (fun e => e.2 == penattrTypeC e.1) = true := by decide
+
+theorem type_table_domain : penattr_type.map (·.1) = (List.range (TICKIT_N_PEN_ATTRS.toNat + 1)).map (fun (k : Nat) => (k : Int)) := by
+  decide
+
+/-- The model knows every bit-field of the struct. -/
+theorem no_unknown_fields : unknown_fields = [] := by decide
+
+end PenAttr
+
+/-! ### The pen value: abstraction to the dictionary -/
+
+open Gen.PenLayout in
+/-- Unfold the per-attribute switches of the pen model and of the dictionary. -/
+macro "pen_unfold" : tactic => `(tactic|
+  simp [Pen.abs, Pen.setIntAttr, Pen.setBoolAttr, Pen.setColourAttr, Pen.setColourAttrRgb8, Pen.clearAttr,
+    PenDict.setInt, PenDict.setBool, PenDict.setColour, PenDict.setRgb8, PenDict.set, PenDict.erase,
+    Pen.hasAttr, Pen.getBoolAttr, Pen.getIntAttr, Pen.getColourAttr, Pen.hasColourAttrRgb8, Pen.getColourAttrRgb8,
+    PenAttr.type, PenAttr.width, PenAttr.signed] at *)
+
+namespace Pen
+open Gen.PenLayout
+
+theorem abs_of_not_has (p : Pen) (a : PenAttr) (h : p.hasAttr a = false) : p.abs a = none := by
+  simp [Pen.abs, h]
+
+theorem abs_isSome (p : Pen) (a : PenAttr) : (p.abs a).isSome = p.hasAttr a := by
+  unfold Pen.abs; split <;> simp_all
+
+theorem abs_clearAttr (p : Pen) (a : PenAttr) : (p.clearAttr a).abs = p.abs.erase a := by
+  funext x
+  cases a <;> cases x <;> pen_unfold
+
+theorem abs_setBoolAttr (p : Pen) (a : PenAttr) (v : Bool) :
+    (p.setBoolAttr a v).abs = p.abs.setBool a v := by
+  funext x
+  cases a <;> cases x <;> cases v <;> pen_unfold <;> decide
+
+theorem abs_setIntAttr (p : Pen) (a : PenAttr) (v : Int) (h : a.Representable v) :
+    (p.setIntAttr a v).abs = p.abs.setInt a v := by
+  have hs := store_of_representable a.width a.signed v a.width_pos h
+  funext x
+  cases a <;> cases x <;> pen_unfold <;> simp [hs]
+
+theorem abs_setColourAttr (p : Pen) (a : PenAttr) (v : Int) (h : a.Representable v) :
+    (p.setColourAttr a v).abs = p.abs.setColour a v := by
+  have hs := store_of_representable a.width a.signed v a.width_pos h
+  funext x
+  cases a <;> cases x <;> pen_unfold <;> simp [hs]
+
+theorem abs_setColourAttrRgb8 (p : Pen) (a : PenAttr) (v : RGB8) :
+    (p.setColourAttrRgb8 a v).abs = p.abs.setRgb8 a v := by
+  funext x
+  cases h : p.hasAttr a <;> cases a <;> cases x <;>
+    simp_all [Pen.abs, Pen.setColourAttrRgb8, PenDict.setRgb8, PenDict.set,
+      Pen.hasAttr, Pen.getBoolAttr, Pen.getIntAttr, Pen.getColourAttr, Pen.hasColourAttrRgb8, Pen.getColourAttrRgb8,
+      PenAttr.type]
+
+/-- Setters for another type leave the pen alone (the `default: return` arms). -/
+theorem setIntAttr_wrong_type (p : Pen) (a : PenAttr) (v : Int) (h : a.type ≠ .int) : p.setIntAttr a v = p := by
+  cases a <;> simp_all [Pen.setIntAttr, PenAttr.type]
+
+theorem setColourAttr_wrong_type (p : Pen) (a : PenAttr) (v : Int) (h : a.type ≠ .colour) : p.setColourAttr a v = p := by
+  cases a <;> simp_all [Pen.setColourAttr, PenAttr.type]
+
+theorem setBoolAttr_wrong_type (p : Pen) (a : PenAttr) (v : Bool) (h : a.type = .colour ∨ a = .altfont ∨ a = .sizepos) :
+    p.setBoolAttr a v = p := by
+  cases a <;> simp_all [Pen.setBoolAttr, PenAttr.type]
+
+/-! #### `clear`, `new` -/
+
+theorem clear_hasAttr (p : Pen) (a : PenAttr) : p.clear.hasAttr a = false := by
+  cases a <;> simp [Pen.clear, PenAttr.all, List.foldl, Pen.clearAttr, Pen.hasAttr]
+
+theorem abs_clear (p : Pen) : p.clear.abs = PenDict.empty := by
+  funext x
+  simp [Pen.abs, clear_hasAttr, PenDict.empty]
+
+theorem abs_newFrom (g : Pen) : (newFrom g).abs = PenDict.empty := abs_clear g
+theorem abs_new : Pen.new.abs = PenDict.empty := abs_clear _
+
+/-! #### The invariant `WF` -/
+
+theorem wf_new : Pen.new.WF := by
+  intro a; cases a <;> decide
+
+theorem wf_clearAttr (p : Pen) (a : PenAttr) (h : p.WF) : (p.clearAttr a).WF := by
+  intro x; have := h x
+  cases a <;> cases x <;> simpa [Pen.clearAttr, Pen.rawField] using this
+
+theorem wf_clear (p : Pen) (h : p.WF) : p.clear.WF := by
+  unfold Pen.clear
+  generalize PenAttr.all = l
+  induction l generalizing p with
+  | nil => simpa using h
+  | cons a l ih => simp only [List.foldl_cons]; exact ih _ (wf_clearAttr p a h)
+
+theorem wf_setIntAttr (p : Pen) (a : PenAttr) (v : Int) (h : p.WF) : (p.setIntAttr a v).WF := by
+  intro x; have hx := h x
+  have hs := store_representable a.width a.signed v a.width_pos
+  cases a <;> cases x <;>
+    simp_all [Pen.setIntAttr, Pen.rawField, PenAttr.Representable, PenAttr.width, PenAttr.signed]
+
+theorem wf_setColourAttr (p : Pen) (a : PenAttr) (v : Int) (h : p.WF) : (p.setColourAttr a v).WF := by
+  intro x; have hx := h x
+  have hs := store_representable a.width a.signed v a.width_pos
+  cases a <;> cases x <;>
+    simp_all [Pen.setColourAttr, Pen.rawField, PenAttr.Representable, PenAttr.width, PenAttr.signed]
+
+theorem wf_setBoolAttr (p : Pen) (a : PenAttr) (v : Bool) (h : p.WF) : (p.setBoolAttr a v).WF := by
+  intro x; have hx := h x
+  have hs := fun w => store_representable a.width a.signed w a.width_pos
+  cases a <;> cases x <;>
+    simp_all [Pen.setBoolAttr, Pen.rawField, PenAttr.Representable, PenAttr.width, PenAttr.signed]
+
+theorem wf_setColourAttrRgb8 (p : Pen) (a : PenAttr) (v : RGB8) (h : p.WF) : (p.setColourAttrRgb8 a v).WF := by
+  intro x; have hx := h x
+  unfold Pen.setColourAttrRgb8
+  split
+  · exact hx
+  · cases a <;> cases x <;> simpa [Pen.rawField] using hx
+
+/-! #### equivalence, copy, clone -/
+
+theorem rgb8_eq_iff (x y : RGB8) : x = y ↔ (x.r = y.r ∧ x.g = y.g ∧ x.b = y.b) := by
+  cases x; cases y; simp
+
+/-- Reading the dictionary with defaulting is reading the pen through its getters. -/
+theorem abs_read (p : Pen) (x : PenAttr) : p.abs.read x = p.typedRead x := by
+  cases h : p.hasAttr x <;> cases x <;>
+    simp_all [PenDict.read, PenDict.default, Pen.abs, typedRead, PenAttr.type,
+      Pen.hasAttr, Pen.getBoolAttr, Pen.getIntAttr, Pen.getColourAttr, Pen.hasColourAttrRgb8, Pen.getColourAttrRgb8]
+
+/-- What `tickit_pen_equiv_attr` compares is what the two pens read as. -/
+theorem equivAttr_iff (a b : Pen) (x : PenAttr) : a.equivAttr b x = true ↔ a.typedRead x = b.typedRead x := by
+  unfold Pen.equivAttr typedRead
+  cases hx : x.type
+  · simp
+  · simp
+  · cases ha : a.hasColourAttrRgb8 x <;> cases hb : b.hasColourAttrRgb8 x <;> simp [rgb8_eq_iff, and_assoc]
+
+theorem equiv_eq_dict (a b : Pen) : a.equiv b = PenDict.equiv a.abs b.abs := by
+  unfold Pen.equiv PenDict.equiv
+  congr 1
+  funext x
+  rw [Bool.eq_iff_iff, equivAttr_iff, abs_read, abs_read]
+  simp
+
+/-! #### copy -/
+
+theorem getIntAttr_representable (p : Pen) (a : PenAttr) (h : p.WF) : a.Representable (p.getIntAttr a) := by
+  have ha := h a
+  cases hh : p.hasAttr a <;> cases a <;>
+    simp_all [Pen.getIntAttr, Pen.rawField, Pen.hasAttr] <;> decide
+
+theorem getColourAttr_representable (p : Pen) (a : PenAttr) (h : p.WF) (ht : a.type = .colour) :
+    a.Representable (p.getColourAttr a) := by
+  have ha := h a
+  cases hh : p.hasAttr a <;> cases a <;>
+    simp_all [Pen.getColourAttr, Pen.rawField, Pen.hasAttr, PenAttr.type] <;> decide
+
+theorem abs_copyAttr (dst src : Pen) (a : PenAttr) (hs : src.WF) :
+    (dst.copyAttr src a).abs = PenDict.copyAttr dst.abs src.abs a := by
+  unfold Pen.copyAttr PenDict.copyAttr
+  rw [abs_read]
+  unfold typedRead
+  cases ht : a.type
+  · simp only [abs_setBoolAttr]
+    cases a <;> simp_all [PenDict.setBool, PenAttr.type]
+  · simp only [abs_setIntAttr _ _ _ (getIntAttr_representable src a hs)]
+    simp [PenDict.setInt, ht]
+  · simp only
+    split
+    · rw [abs_setColourAttrRgb8, abs_setColourAttr _ _ _ (getColourAttr_representable src a hs ht)]
+      funext x
+      simp [PenDict.setRgb8, PenDict.setColour, ht, PenDict.set]
+      split <;> simp_all
+    · rw [abs_setColourAttr _ _ _ (getColourAttr_representable src a hs ht)]
+      simp [PenDict.setColour, ht]
+
+
+/-- `PenDict.copy` at `x` looks only at the two entries at `x`. -/
+theorem dict_copy_congr (d1 d2 s : PenDict) (ow : Bool) (x : PenAttr) (h : d1 x = d2 x) :
+    PenDict.copy d1 s ow x = PenDict.copy d2 s ow x := by
+  simp [PenDict.copy, h]
+
+theorem copyStep_abs_other (src : Pen) (ow : Bool) (d : Pen) (a x : PenAttr) (hs : src.WF) (hx : x ≠ a) :
+    (copyStep src ow d a).abs x = d.abs x := by
+  unfold copyStep
+  split
+  · rfl
+  · split
+    · rfl
+    · rw [abs_copyAttr _ _ _ hs]; simp [PenDict.copyAttr, PenDict.set, hx]
+
+theorem copyStep_abs_same (src : Pen) (ow : Bool) (d : Pen) (a : PenAttr) (hs : src.WF) :
+    (copyStep src ow d a).abs a = PenDict.copy d.abs src.abs ow a := by
+  unfold copyStep
+  cases hsa : src.hasAttr a
+  · simp [PenDict.copy, abs_of_not_has _ _ hsa]
+  · have hsome : src.abs a = some (src.typedRead a) := by
+      have := abs_read src a
+      have h2 := abs_isSome src a
+      rw [hsa] at h2
+      cases hv : src.abs a with
+      | none => simp [hv] at h2
+      | some v => simp [PenDict.read, hv] at this; simp [this]
+    cases hda : d.hasAttr a
+    · simp [abs_copyAttr _ _ _ hs, PenDict.copyAttr, PenDict.set, PenDict.copy, abs_read, hsome,
+        abs_of_not_has _ _ hda]
+    · have hd : (d.abs a).isSome = true := by rw [abs_isSome, hda]
+      cases ow
+      · simp [PenDict.copy, hsome, hd]
+      · cases he : src.equivAttr d a
+        · simp [abs_copyAttr _ _ _ hs, PenDict.copyAttr, PenDict.set, PenDict.copy, abs_read, hsome, hd]
+        · simp [PenDict.copy, hsome, hd]
+          have := (equivAttr_iff src d a).1 he
+          have hr := abs_read d a
+          cases hv : d.abs a with
+          | none => simp [hv] at hd
+          | some v => simp [PenDict.read, hv] at hr; rw [hr, this]
+
+theorem foldl_copyStep_abs (src : Pen) (ow : Bool) (hs : src.WF) (l : List PenAttr) (hl : l.Nodup) (d : Pen) (x : PenAttr) :
+    (l.foldl (copyStep src ow) d).abs x = if x ∈ l then PenDict.copy d.abs src.abs ow x else d.abs x := by
+  induction l generalizing d with
+  | nil => simp
+  | cons a l ih =>
+    simp only [List.foldl_cons]
+    rw [ih (List.nodup_cons.1 hl).2]
+    by_cases hxa : x = a
+    · subst hxa
+      have : x ∉ l := (List.nodup_cons.1 hl).1
+      simp [this, copyStep_abs_same _ _ _ _ hs]
+    · simp only [List.mem_cons, hxa, false_or]
+      rw [copyStep_abs_other _ _ _ _ _ hs hxa]
+      split
+      · exact dict_copy_congr _ _ _ _ _ (copyStep_abs_other _ _ _ _ _ hs hxa)
+      · rfl
+
+/-- `tickit_pen_copy` refines the dictionary copy. -/
+theorem abs_copy (dst src : Pen) (ow : Bool) (hs : src.WF) : (dst.copy src ow).abs = PenDict.copy dst.abs src.abs ow := by
+  funext x
+  unfold Pen.copy
+  rw [foldl_copyStep_abs src ow hs _ PenAttr.all_nodup]
+  simp [PenAttr.mem_all]
+
+theorem dict_copy_empty (s : PenDict) (ow : Bool) : PenDict.copy PenDict.empty s ow = s := by
+  funext x
+  simp [PenDict.copy, PenDict.empty]
+  cases s x <;> simp
+
+theorem abs_clone (orig : Pen) (h : orig.WF) : orig.clone.abs = orig.abs := by
+  unfold Pen.clone
+  rw [abs_copy _ _ _ h, abs_new, dict_copy_empty]
+
+
+/-! #### colour descriptions -/
+
+theorem descParseRgb8_cases (sc : Scanf) (p : Pen) (a : PenAttr) (desc : List UInt8) (hashp : Option Nat) :
+    descParseRgb8 sc p a desc hashp = (true, p) ∨ ∃ rgb, descParseRgb8 sc p a desc hashp = (true, p.setColourAttrRgb8 a rgb) := by
+  unfold descParseRgb8
+  split
+  · split
+    · exact Or.inr ⟨_, rfl⟩
+    · exact Or.inl rfl
+  · exact Or.inl rfl
+
+theorem descCore_structural (sc : Scanf) (p : Pen) (a : PenAttr) (s : List UInt8) (hi : Int) :
+    descCore sc p a s hi = (false, p) ∨
+    ∃ idx, descCore sc p a s hi = (true, p.setColourAttr a idx) ∨
+      ∃ rgb, descCore sc p a s hi = (true, (p.setColourAttr a idx).setColourAttrRgb8 a rgb) := by
+  unfold descCore
+  simp only
+  split
+  · split
+    · exact Or.inl rfl
+    · exact Or.inr ⟨_, descParseRgb8_cases _ _ _ _ _⟩
+  · split
+    · exact Or.inr ⟨_, descParseRgb8_cases _ _ _ _ _⟩
+    · exact Or.inl rfl
+
+theorem desc_structural (sc : Scanf) (p : Pen) (a : PenAttr) (s : List UInt8) :
+    setColourAttrDesc sc p a s = (false, p) ∨
+    ∃ idx, setColourAttrDesc sc p a s = (true, p.setColourAttr a idx) ∨
+      ∃ rgb, setColourAttrDesc sc p a s = (true, (p.setColourAttr a idx).setColourAttrRgb8 a rgb) := by
+  unfold setColourAttrDesc
+  split <;> exact descCore_structural _ _ _ _ _
+
+
+
+theorem descCore_eq_parse (sc : Scanf) (p : Pen) (a : PenAttr) (s : List UInt8) (hi : Int) :
+    descCore sc p a s hi = applyParsed p a (descParseCore sc s hi) := by
+  unfold descCore descParseCore descParseRgb8
+  simp only
+  split
+  · split
+    · rfl
+    · split
+      · split <;> simp_all [applyParsed]
+      · simp [applyParsed]
+  · split
+    · split
+      · split <;> simp_all [applyParsed]
+      · simp [applyParsed]
+    · rfl
+
+/-- The description parser is: parse the string (independently of pen and attribute), then make the direct calls. -/
+theorem setColourAttrDesc_eq_parse (sc : Scanf) (p : Pen) (a : PenAttr) (s : List UInt8) :
+    setColourAttrDesc sc p a s = applyParsed p a (descParse sc s) := by
+  unfold setColourAttrDesc descParse
+  split <;> exact descCore_eq_parse _ _ _ _ _
+
+/-! general (unconditional) forms of the setter refinements: what is stored is `store width signed v` -/
+
+theorem abs_setIntAttr' (p : Pen) (a : PenAttr) (v : Int) :
+    (p.setIntAttr a v).abs = p.abs.setInt a (store a.width a.signed v) := by
+  funext x
+  cases a <;> cases x <;> pen_unfold
+
+theorem abs_setColourAttr' (p : Pen) (a : PenAttr) (v : Int) :
+    (p.setColourAttr a v).abs = p.abs.setColour a (store a.width a.signed v) := by
+  funext x
+  cases a <;> cases x <;> pen_unfold
+
+/-! WF is preserved by the remaining operations -/
+
+theorem wf_copyAttr (dst src : Pen) (a : PenAttr) (h : dst.WF) : (dst.copyAttr src a).WF := by
+  unfold Pen.copyAttr
+  split
+  · exact wf_setBoolAttr _ _ _ h
+  · exact wf_setIntAttr _ _ _ h
+  · simp only
+    split
+    · exact wf_setColourAttrRgb8 _ _ _ (wf_setColourAttr _ _ _ h)
+    · exact wf_setColourAttr _ _ _ h
+
+theorem wf_copyStep (src : Pen) (ow : Bool) (d : Pen) (a : PenAttr) (h : d.WF) : (copyStep src ow d a).WF := by
+  unfold copyStep
+  split
+  · exact h
+  · split
+    · exact h
+    · exact wf_copyAttr _ _ _ h
+
+theorem wf_copy (dst src : Pen) (ow : Bool) (h : dst.WF) : (dst.copy src ow).WF := by
+  unfold Pen.copy
+  generalize PenAttr.all = l
+  induction l generalizing dst with
+  | nil => simpa using h
+  | cons a l ih => simp only [List.foldl_cons]; exact ih _ (wf_copyStep _ _ _ _ h)
+
+theorem wf_clone (orig : Pen) : orig.clone.WF := wf_copy _ _ _ wf_new
+
+theorem wf_applyParsed (p : Pen) (a : PenAttr) (r : Option (Int × Option RGB8)) (h : p.WF) : (applyParsed p a r).2.WF := by
+  unfold applyParsed
+  split
+  · exact h
+  · exact wf_setColourAttr _ _ _ h
+  · exact wf_setColourAttrRgb8 _ _ _ (wf_setColourAttr _ _ _ h)
+
+theorem wf_setColourAttrDesc (sc : Scanf) (p : Pen) (a : PenAttr) (s : List UInt8) (h : p.WF) :
+    (setColourAttrDesc sc p a s).2.WF := by
+  rw [setColourAttrDesc_eq_parse]; exact wf_applyParsed _ _ _ h
+
+end Pen
+
+/-! ### The pen object: the event layer does not change the value semantics -/
+namespace PenObj
+
+@[simp] theorem runEvents_pen (o : PenObj) : o.runEvents.pen = o.pen := rfl
+@[simp] theorem markChanged_pen (o : PenObj) : o.markChanged.pen = o.pen := by unfold markChanged; split <;> rfl
+@[simp] theorem freeze_pen (o : PenObj) : o.freeze.pen = o.pen := rfl
+@[simp] theorem thaw_pen (o : PenObj) : o.thaw.pen = o.pen := by unfold thaw; simp only; split <;> rfl
+
+theorem setBoolAttr_pen (o : PenObj) (a : PenAttr) (v : Bool) : (o.setBoolAttr a v).pen = o.pen.setBoolAttr a v := by
+  cases a <;> simp [setBoolAttr, Pen.setBoolAttr]
+
+theorem setIntAttr_pen (o : PenObj) (a : PenAttr) (v : Int) : (o.setIntAttr a v).pen = o.pen.setIntAttr a v := by
+  cases a <;> simp [setIntAttr, Pen.setIntAttr]
+
+theorem setColourAttr_pen (o : PenObj) (a : PenAttr) (v : Int) : (o.setColourAttr a v).pen = o.pen.setColourAttr a v := by
+  cases a <;> simp [setColourAttr, Pen.setColourAttr]
+
+theorem setColourAttrRgb8_pen (o : PenObj) (a : PenAttr) (v : RGB8) :
+    (o.setColourAttrRgb8 a v).pen = o.pen.setColourAttrRgb8 a v := by
+  unfold setColourAttrRgb8 Pen.setColourAttrRgb8
+  split
+  · rfl
+  · cases a <;> simp
+
+theorem clearAttr_pen (o : PenObj) (a : PenAttr) : (o.clearAttr a).pen = o.pen.clearAttr a := by
+  simp [clearAttr]
+
+theorem clear_pen (o : PenObj) : o.clear.pen = o.pen.clear := by
+  unfold clear Pen.clear
+  generalize PenAttr.all = l
+  induction l generalizing o with
+  | nil => rfl
+  | cons a l ih => simp only [List.foldl_cons]; rw [ih, clearAttr_pen]
+
+theorem copyAttr_pen (dst : PenObj) (src : Pen) (a : PenAttr) : (dst.copyAttr src a).pen = dst.pen.copyAttr src a := by
+  unfold copyAttr Pen.copyAttr
+  split
+  · exact setBoolAttr_pen _ _ _
+  · exact setIntAttr_pen _ _ _
+  · simp only [thaw_pen]
+    split
+    · rw [setColourAttrRgb8_pen, setColourAttr_pen, freeze_pen]
+    · rw [setColourAttr_pen, freeze_pen]
+
+theorem copyStep_pen (src : Pen) (ow : Bool) (d : PenObj) (a : PenAttr) :
+    (copyStep src ow d a).pen = Pen.copyStep src ow d.pen a := by
+  unfold copyStep Pen.copyStep
+  split
+  · rfl
+  · split
+    · rfl
+    · exact copyAttr_pen _ _ _
+
+theorem copy_pen (dst : PenObj) (src : Pen) (ow : Bool) : (dst.copy src ow).pen = dst.pen.copy src ow := by
+  unfold copy Pen.copy
+  rw [thaw_pen]
+  have : dst.freeze.pen = dst.pen := rfl
+  rw [← this]
+  generalize dst.freeze = d
+  generalize PenAttr.all = l
+  induction l generalizing d with
+  | nil => rfl
+  | cons a l ih => simp only [List.foldl_cons]; rw [ih, copyStep_pen]
+
+theorem copyAttrSelf_pen (p : PenObj) (a : PenAttr) : (p.copyAttrSelf a).pen = p.pen.copyAttrSelf a := by
+  unfold copyAttrSelf Pen.copyAttrSelf
+  split
+  · exact setBoolAttr_pen _ _ _
+  · exact setIntAttr_pen _ _ _
+  · simp only [thaw_pen, setColourAttr_pen, freeze_pen]
+    split
+    · rw [setColourAttrRgb8_pen, setColourAttr_pen, freeze_pen]
+    · rw [setColourAttr_pen, freeze_pen]
+
+theorem descCore_pen (sc : Pen.Scanf) (o : PenObj) (a : PenAttr) (s : List UInt8) (hi : Int) :
+    ((o.descCore sc a s hi).1, (o.descCore sc a s hi).2.pen) = Pen.descCore sc o.pen a s hi := by
+  unfold descCore Pen.descCore descParseRgb8 Pen.descParseRgb8
+  simp only
+  split
+  · split
+    · rfl
+    · split
+      · split <;> simp [setColourAttrRgb8_pen, setColourAttr_pen]
+      · simp [setColourAttr_pen]
+  · split
+    · split
+      · split <;> simp [setColourAttrRgb8_pen, setColourAttr_pen]
+      · simp [setColourAttr_pen]
+    · rfl
+
+theorem setColourAttrDesc_pen (sc : Pen.Scanf) (o : PenObj) (a : PenAttr) (s : List UInt8) :
+    ((o.setColourAttrDesc sc a s).1, (o.setColourAttrDesc sc a s).2.pen) = Pen.setColourAttrDesc sc o.pen a s := by
+  unfold setColourAttrDesc Pen.setColourAttrDesc
+  split <;> exact descCore_pen _ _ _ _ _
+
+end PenObj
 end Tickit
